@@ -3,7 +3,12 @@
 //!   panic_tokens   <utf8>                      parse_to_tokens
 //!   panic_lock     <lock file bytes> <now>     LockFile::acquire on an existing lock file (`now` is for the model only)
 //!   panic_coerce   <container> <old> <new>     coercion::apply_coercion   (old must not be empty: the loop would not return)
-//! Result: `panic` | `nopanic`.
+//!   panic_tokens_acr <utf8> <acronym>...      parse_to_tokens_with_acronyms with a custom acronym set
+//!   panic_edits    <orig> (<before> <after> <start> <end>)*   apply_plan on one file (stale / hostile offsets)
+//!   panic_vmap     <search> <replace>          generate_variant_map: `no-empty-key` | `empty-key`
+//!   panic_upper    <utf8>                      case_constraints::can_match_style (reaches has_consecutive_uppercase)
+//!   panic_find     <content> <variant>...      build_pattern + find_matches
+//! Result: `panic` | `nopanic` (panic_vmap: `panic` | `no-empty-key` | `empty-key`).
 use crate::util::*;
 use std::panic::{catch_unwind, AssertUnwindSafe};
 
@@ -42,6 +47,55 @@ pub fn dispatch(f: &[&str]) -> Option<String> {
             let (Some(c), Some(o), Some(n)) = (unhex_str(f[1]), unhex_str(f[2]), unhex_str(f[3])) else { return Some("bad-req".into()) };
             if o.is_empty() { return Some("bad-req".into()); }
             Some(verdict(catch_unwind(|| renamify_core::coercion::apply_coercion(&c, &o, &n))))
+        },
+        Some("panic_tokens_acr") => {
+            if f.len() < 2 { return Some("bad-req".into()); }
+            let Some(s) = unhex_str(f[1]) else { return Some("bad-req".into()) };
+            let mut acrs = vec![];
+            for a in &f[2..] {
+                let Some(x) = unhex_str(a) else { return Some("bad-req".into()) };
+                acrs.push(x);
+            }
+            Some(verdict(catch_unwind(AssertUnwindSafe(|| {
+                let set = renamify_core::acronym::AcronymSet::from_list(&acrs);
+                renamify_core::case_model::parse_to_tokens_with_acronyms(&s, &set)
+            }))))
+        },
+        Some("panic_edits") => {
+            if f.len() < 2 { return Some("bad-req".into()); }
+            let r = crate::ops_edits::edits(&f[1..]);
+            if r == "bad-req" { return Some(r); }
+            Some(if r == "panic" { "panic".into() } else { "nopanic".into() })
+        },
+        Some("panic_vmap") => {
+            if f.len() != 3 { return Some("bad-req".into()); }
+            let (Some(s), Some(r)) = (unhex_str(f[1]), unhex_str(f[2])) else { return Some("bad-req".into()) };
+            match catch_unwind(|| renamify_core::case_model::generate_variant_map(&s, &r, None)) {
+                Err(_) => Some("panic".into()),
+                Ok(m) => Some(if m.keys().any(|k| k.is_empty()) { "empty-key".into() } else { "no-empty-key".into() }),
+            }
+        },
+        Some("panic_upper") => {
+            if f.len() != 2 { return Some("bad-req".into()); }
+            let Some(s) = unhex_str(f[1]) else { return Some("bad-req".into()) };
+            Some(verdict(catch_unwind(|| {
+                (
+                    renamify_core::case_constraints::can_match_style(&s, renamify_core::case_model::Style::Camel),
+                    renamify_core::case_constraints::can_match_style(&s, renamify_core::case_model::Style::Pascal),
+                )
+            })))
+        },
+        Some("panic_find") => {
+            if f.len() < 2 { return Some("bad-req".into()); }
+            let Some(c) = unhex(f[1]) else { return Some("bad-req".into()) };
+            let mut vars = vec![];
+            for a in &f[2..] {
+                let Some(x) = unhex_str(a) else { return Some("bad-req".into()) };
+                vars.push(x);
+            }
+            Some(verdict(catch_unwind(AssertUnwindSafe(|| {
+                renamify_core::build_pattern(&vars).map(|p| renamify_core::find_matches(&p, &c, "f").len())
+            }))))
         },
         _ => None,
     }
